@@ -349,3 +349,27 @@ def set_rlimit(gib=3):
 
 def py_version():
     return sys.version.split()[0]
+
+
+# --------------------------------------------------------------------------
+# process-wide interpreter settings
+
+_PRISTINE = {}
+
+
+def reset_process_state():
+    """Put the process-wide interpreter settings that code under test could
+    touch (warning filters, recursion limit) back to what they were when the
+    harness first asked: a case must not inherit what an earlier case left
+    behind, or a defect shows only once per process and never replays."""
+    import warnings
+    if not _PRISTINE:
+        _PRISTINE['filters'] = list(warnings.filters)
+        _PRISTINE['recursion'] = sys.getrecursionlimit()
+        return
+    if list(warnings.filters) != _PRISTINE['filters']:
+        warnings.filters[:] = _PRISTINE['filters']
+        if hasattr(warnings, '_filters_mutated'):
+            warnings._filters_mutated()
+    if sys.getrecursionlimit() != _PRISTINE['recursion']:
+        sys.setrecursionlimit(_PRISTINE['recursion'])
